@@ -166,8 +166,14 @@ def body_limited(I, X, N=6, kinds=("readinto", "read"), has_readinto=True):
         # only when the client really sent less than declared (or the transport failed)
         ok = pand(ok, por(raw.faulted, pand(raw.pos >= L, raw.pos < limit)), pnot(pand(is_max, pnot(raw.faulted))))
     if exc == "RequestEntityTooLarge":
-        # only for a read attempted when the maximum had already been reached
-        ok = pand(ok, is_max, raw.pos >= limit, pos_before >= limit)
+        # only when the maximum has been reached: by an earlier call for sized reads, possibly
+        # during this very call for an unbounded read (which asks for "everything")
+        ok = pand(ok, is_max, raw.pos >= limit, True if ops[-1] == "readall" else pos_before >= limit)
+    if exc is None and ops and ops[-1] == "readall":
+        # no silent truncation: an unbounded read that returns normally under a MAXIMUM has
+        # seen the end of the client's data (under a declared length the rest is not the body).
+        # exhaust() is a drain that by contract stops quietly at the limit.
+        ok = pand(ok, pimplies(is_max, raw.pos >= L))
     if raw.faulted:
         ok = pand(ok, exc == "ClientDisconnected")
     obs = {"got": got, "pos": raw.pos, "exc": exc, "ops": ops, "calls": raw.calls}
